@@ -71,6 +71,12 @@ pub fn gen_plan(rng: &mut Rng, tier: &str, conc: bool) -> Plan {
         cfg.flushers = 1;
         cfg.reclaimers = 1;
         cfg.blocks = (2 * (1 + cfg.clean_block_threshold)).max(4) + rng.usize(5);
+        if rng.chance(1, 2) {
+            // many small blocks: a quarter of the device (the batch bound) is several blocks, so one batch has several
+            // block writers waiting for clean blocks at once
+            cfg.block_size = 16 * 1024;
+            cfg.blocks = 16 + rng.usize(17);
+        }
     }
     cfg.reinsert_mod = if no_deletes && simple { 0 } else { *rng.pick(&[0u64, 0, 2, 3]) };
     let cap_pages = cfg.blocks * (cfg.block_size / PAGE - 1);
@@ -104,18 +110,24 @@ pub struct Generation {
     pub max_seq: u64,
 }
 
-/// (hash, sequence) of every entry header found at a page boundary of a data write
+/// (hash, sequence) of every entry in a data write.  The write is walked entry by entry (header, then the page-aligned
+/// length it announces): io buffers are reused, so padding pages can contain stale headers of earlier batches.
 pub fn entries_in_write(w: &WriteRec) -> Vec<(u64, u64)> {
     let mut out = vec![];
     if w.offset == 0 || w.data.len() != w.len {
         return out;
     }
-    for pg in 0..w.data.len() / PAGE {
-        let b = &w.data[pg * PAGE..];
+    let mut o = 0usize;
+    while o + image::HEADER_LEN <= w.data.len() {
+        let b = &w.data[o..];
         let tag = u32::from_be_bytes(b[32..36].try_into().unwrap());
-        if tag & 0xFFFF_FF00 == image::ENTRY_MAGIC && (tag & 0xFF) <= 2 {
-            out.push((u64::from_be_bytes(b[8..16].try_into().unwrap()), u64::from_be_bytes(b[16..24].try_into().unwrap())));
+        if tag & 0xFFFF_FF00 != image::ENTRY_MAGIC || (tag & 0xFF) > 2 {
+            break;
         }
+        let key_len = u32::from_be_bytes(b[0..4].try_into().unwrap()) as usize;
+        let value_len = u32::from_be_bytes(b[4..8].try_into().unwrap()) as usize;
+        out.push((u64::from_be_bytes(b[8..16].try_into().unwrap()), u64::from_be_bytes(b[16..24].try_into().unwrap())));
+        o += (image::HEADER_LEN + key_len + value_len).div_ceil(PAGE) * PAGE;
     }
     out
 }
@@ -214,6 +226,49 @@ pub fn check_generations(cfg: &HCfg, writes: &[WriteRec], fifo_clause: bool) -> 
             }
         }
     }
+    if fifo_clause {
+        // Within one flush batch (single flusher: batches never overlap in time) the block parts ask for clean blocks in
+        // sequence order and must be served - and therefore start writing - in that order.
+        let data: Vec<&WriteRec> = writes.iter().filter(|w| w.partition >= first_block && !is_clean_write(cfg, w) && w.offset != 0).collect();
+        let mut group: Vec<&WriteRec> = vec![];
+        let mut group_end = 0u64;
+        let mut flush_group = |g: &mut Vec<&WriteRec>, problems: &mut Vec<(String, String)>| {
+            // first data write of every partition touched by the batch, with the lowest entry sequence it carries
+            let mut parts: BTreeMap<u32, (u64, u64)> = BTreeMap::new();
+            for w in g.iter() {
+                let min_seq = entries_in_write(w).into_iter().map(|(_, s)| s).min();
+                if let Some(ms) = min_seq {
+                    let e = parts.entry(w.partition).or_insert((w.t_issue, ms));
+                    if w.t_issue < e.0 {
+                        e.0 = w.t_issue;
+                    }
+                    e.1 = e.1.min(ms);
+                }
+            }
+            let mut v: Vec<(u64, u64, u32)> = parts.into_iter().map(|(p, (t, q))| (q, t, p)).collect();
+            v.sort();
+            for pair in v.windows(2) {
+                if pair[1].1 < pair[0].1 {
+                    problems.push((
+                        "batch-parts-written-out-of-sequence-order".into(),
+                        format!("one flush batch: the block part starting at sequence {} (partition {}) began writing at t={} before the part starting at sequence {} (partition {}, t={}): clean blocks were not handed to the waiting block writers in arrival order", pair[1].0, pair[1].2, pair[1].1, pair[0].0, pair[0].2, pair[0].1),
+                    ));
+                    break;
+                }
+            }
+            g.clear();
+        };
+        for w in data {
+            if !group.is_empty() && w.t_issue > group_end {
+                flush_group(&mut group, &mut problems);
+                group_end = 0;
+            }
+            let end = if w.t_complete == 0 { u64::MAX } else { w.t_complete };
+            group_end = group_end.max(end);
+            group.push(w);
+        }
+        flush_group(&mut group, &mut problems);
+    }
     problems.dedup_by(|a, b| a.0 == b.0);
     (problems, done)
 }
@@ -287,6 +342,7 @@ pub async fn run_churn(plan: &Plan) -> Outcome {
     let mut held_bytes = 0usize;
     let mut pending_bytes = 0usize;
     let held_cap = cfg.blocks * cfg.block_size / 4;
+    let mut missed_live: BTreeSet<u64> = BTreeSet::new();
     let mut stalled = false;
     while i < plan.n_ops && !stalled {
         let k = rng.below(plan.keys);
@@ -362,6 +418,16 @@ pub async fn run_churn(plan: &Plan) -> Outcome {
         let r = bounded(&io, &format!("{op:?}"), ex.step(&op)).await;
         match r {
             Ok(o) => {
+                // a live key that reads as a miss during the churn: remembered for the reinsertion clause
+                match (&op, &o.seen) {
+                    (HOp::Get { k }, Some(Seen::Miss)) if oracle.keys.get(k).map(|s| s.current.is_some()).unwrap_or(false) => {
+                        missed_live.insert(*k);
+                    }
+                    (HOp::Insert { k, .. }, _) | (HOp::Remove { k }, _) => {
+                        missed_live.remove(k);
+                    }
+                    _ => {}
+                }
                 let nf = oracle.findings.len();
                 oracle.step(i, cfg, &o, flags);
                 out.ops += 1;
@@ -412,6 +478,10 @@ pub async fn run_churn(plan: &Plan) -> Outcome {
                     out.reinsert_checked += 1;
                     match &o.seen {
                         Some(Seen::Hit(s)) if *s == v => out.reinsert_hits += 1,
+                        other if missed_live.contains(&k) => out.problems.push((
+                            "reinsertion-admitted-entry-lost:after-a-lookup-during-its-block-reclaim".into(),
+                            format!("key {k}: the reinsertion filter admits it and its latest version {v:?} was written to disk; a lookup during the churn already read it as a miss (the reclaimer had released its block before the reinsertion was flushed, the lookup found foreign bytes at the old address and dropped the index entry, the reinsertion was then skipped); at the final quiescent point the lookup gives {other:?}"),
+                        )),
                         other => out.problems.push((
                             "reinsertion-admitted-entry-lost".into(),
                             format!("key {k}: the reinsertion filter admits it and its latest version {v:?} was written to disk, but at the final quiescent point the lookup gives {other:?}"),
@@ -449,7 +519,9 @@ pub async fn run_churn(plan: &Plan) -> Outcome {
 fn finish_log(plan: &Plan, io: &Arc<IoCtl>, out: &mut Outcome) {
     let cfg = &plan.cfg;
     let ws = io.snapshot_writes();
-    let fifo = cfg.flushers == 1 && cfg.reclaimers == 1 && plan.no_deletes && cfg.reinsert_mod == 0 && !cfg.tombstone;
+    // the order clauses compare entry sequence numbers with write order: only meaningful with a single client (concurrent
+    // clients draw sequence numbers and reach the flusher's queue in different orders)
+    let fifo = cfg.flushers == 1 && cfg.reclaimers == 1 && plan.no_deletes && cfg.reinsert_mod == 0 && !cfg.tombstone && plan.owners == 0;
     let (problems, gens) = check_generations(cfg, &ws, fifo);
     if std::env::var("VH_DEBUG").is_ok() && !problems.is_empty() {
         for w in &ws {
